@@ -825,11 +825,18 @@ def percent_encode(chk, prog, orc, fn):
     chk.ob("R1.percent", fn, "no character is written outside keep / escape", not loose, f"writes at blocks {loose}")
 
 
-def percent_decode(chk, prog, orc, fn):
+def percent_decode(chk, prog, orc, fn, owner=True):
+    """owner=False: the caller is another property's check that uses the decoder (C06); C18 owns the decoder's shape floors, so a decoder
+    this rule does not recognise is reported there and only noted here."""
     from .. import byteset
     b = prog.bodies[fn]
     nexts = [(blk, t) for blk, t in b.calls_to(r"Iterator>?::next$")]
     pushes = [(blk, t) for blk, t in b.calls_to(r"vec::Vec::<T, A>::(push|extend_from_slice|insert)$")]
+    if not owner:
+        lit_n = sum(1 for blk, t in pushes if byteset.strip_conv(describe(prog, b, t["args"][-1])) in _next_payloads(prog, b, describe(prog, b, t["args"][-1])).values())
+        if len(pushes) < 2 or lit_n < 1 or lit_n == len(pushes):
+            chk.extra["percent_decode_shape"] = "not the byte-iterator shape this rule follows: decided by C18's check only"
+            return
     chk.floor("output writes in percent_decode", len(pushes), 2)
     # the loop byte: the next() whose element is pushed as it is
     lit_sites, esc_sites = [], []
